@@ -14,7 +14,7 @@ ANCHORS = ['_LogicleTransform.__init__', '_LogicleTransform.transform_non_affine
 LEVEL = 'exploration'
 LEVEL_TEXT = 'Contract on the logicle transform against an independent reference (bisection root, extended-precision biexponential): forward values, monotonicity, zero at W, inverse round trip and monotonicity, documented derivation rules from data, refusals, and a real matplotlib axis. Exploration over a lattice + random triples.'
 TECHNIQUE = 'runtime contract on the logicle transform vs an independent extended-precision biexponential and bisection root'
-RULE = ('lattice T in {1,10,1023,2^18,1e6,1e8} x M in {0.2..12} x W/M in {0,1e-9,..,1.5} plus random triples; display '
+RULE = ('lattice T in {1,10,1023,2^18,1e6,1e8,1e-3,1e100,1e300,1.7e308} x M in {0.2..12} x W/M in {0,1e-9,..,1.5} plus random triples; display '
         'coordinates on a 2001-point grid of [0,M]; invalid triples; parameters derived from data sets with/without '
         'negative events, single/list, with/without known range; a real matplotlib axis; non-trivial = W > 0; '
         'distinct = digest(T,M,W | data)')
@@ -24,6 +24,12 @@ REQUIRED_COUNTERS = ['chk:forward', 'chk:inverse', 'chk:derive', 'chk:refusal', 
 
 
 def check_triple(ctx, cid, P, T, M, W):
+    with np.errstate(all='ignore'):
+        p_ = ref.solve_p(W)
+        top = float(T) * 10.0 ** (W - M) * (1 + p_ * p_) if (W - M) < 300 else float('inf')
+    if not np.isfinite(top) or top > 1e306:
+        ctx.note('triple whose function values exceed the double range (not judged)')
+        return
     o = core.attempt(P._LogicleTransform, T=T, M=M, W=W)
     d = dict(T=T, M=M, W=W)
     if not ctx.check(not o.raised, 'valid-triple-refused', cid, exc=core.exc_str(o.exc) if o.raised else None, **d):
@@ -94,7 +100,7 @@ def check_triple(ctx, cid, P, T, M, W):
                 ctx.check(got.shape == wanti.shape and bool(np.all(np.abs(got - wanti) <= 1e-9 * M)),
                           'form:inverse-depends-on-input-form', cid, form=fname, **d)
     integral = [float(v) == int(v) for v in (T, M, W)]
-    if all(integral) and M >= 1:
+    if all(integral) and M >= 1 and T < 2 ** 62:
         for fname, conv in (('py-int', int), ('np-int64', np.int64), ('np-float64', np.float64)):
             ctx.counters['chk:form'] += 1
             o2 = core.attempt(P._LogicleTransform, T=conv(T), M=conv(M), W=conv(W))
@@ -116,7 +122,7 @@ def run(ctx):
     P = F.plot
     import matplotlib
     import matplotlib.pyplot as plt
-    Ts = [1, 10, 1023, 262144, 1e6, 1e8]
+    Ts = [1, 10, 1023, 262144, 1e6, 1e8, 1e-3, 1e100, 1e300, 1.7e308]      # every T > 0 is a valid parameter
     Ms = [0.2, 1, 2.5, 4.5, 6, 8, 12]
     Wf = [0, 1e-9, 1e-3, 0.05, 0.11, 0.3, 0.5, 0.9, 1.5]
     lat = [(T, M, M * w) for T in Ts for M in Ms for w in Wf]
@@ -125,7 +131,7 @@ def run(ctx):
         if cid[1] < len(lat):
             T, M, W = lat[cid[1]]
         else:
-            T = float(10 ** rng.uniform(0, 8))
+            T = float(10 ** rng.uniform(0, 8)) if rng.random() < 0.85 else float(10 ** rng.uniform(-3, 307))
             M = float(rng.uniform(0.2, 12))
             W = float(rng.choice([0, rng.uniform(0, 1.5 * M), rng.uniform(0, 0.3 * M)]))
         ctx.counters['chk:forward'] += 1
